@@ -15,7 +15,7 @@ import (
 func init() { register("C06", true, checkC06) }
 
 func checkC06(p *Prog, r *Report) {
-	r.Explain("HDR: every construction of a meta.ExifHeader takes ByteOrder from utils.BinaryOrder(x) and FirstIfdOffset from <that order>.Uint32(x[4:8]) — the payload's own TIFF header — in every container scanner. SIB: the three Exif entry points stored in ExifReader slots (DecodeTiff, DecodeJPEGIfd, DecodeIfd) initialise the same reader state (reset, image type, first-IFD offset, length, position) and start readIfd on NewIFD(h.ByteOrder, h.FirstIfd, ...). SWITCH: every decoding case of imagemeta.Decode funnels into one of these siblings. PAYSEEK: every Seek in package exif2 is relative to the current position, except the one that positions the stream at ExifHeader.TiffHeaderOffset (the payload decoder never computes absolute positions, which differ per container). PNGWALK: every exit of the PNG chunk walk is under a failed read/seek or under chunkType == \"eXIf\" (no other chunk, before or after the image data, influences the result). Equality of decoded values across containers is a run-time fact and is not decided; C10/C11/C12 cover the hand-offs.")
+	r.Explain("HDR: every construction of a meta.ExifHeader takes ByteOrder from utils.BinaryOrder(x) and FirstIfdOffset from <that order>.Uint32(x[4:8]) — the payload's own TIFF header — in every container scanner. SIB: the three Exif entry points stored in ExifReader slots (DecodeTiff, DecodeJPEGIfd, DecodeIfd) initialise the same reader state (reset, image type, first-IFD offset, length, position) and start readIfd on NewIFD(h.ByteOrder, h.FirstIfd, ...). SWITCH: every decoding case of imagemeta.Decode funnels into one of these siblings. CAP: every reader handed to DecodeTiff/DecodeJPEGIfd/DecodeIfd, directly or through an ExifReader callback, is of a type implementing exif2.BufferedReader (all containers take the decoder's buffered path; the unbuffered one refuses long values). POS: the ISOBMFF hand-off consumes exactly the FirstIfdOffset it read from the payload's header before DecodeIfd (po = FirstIfdOffset) takes over. PAYSEEK: every Seek in package exif2 is relative to the current position, except the one that positions the stream at ExifHeader.TiffHeaderOffset (the payload decoder never computes absolute positions, which differ per container). PNGWALK: every exit of the PNG chunk walk is under a failed read/seek or under chunkType == \"eXIf\" (no other chunk, before or after the image data, influences the result). Equality of decoded values across containers is a run-time fact and is not decided; C10/C11/C12 cover the hand-offs.")
 	r.Trusted("the decoders are deterministic functions of the reader state these rules pin down")
 	ruleHDR(p, r, "")
 	ruleSIB(p, r)
@@ -24,6 +24,9 @@ func checkC06(p *Prog, r *Report) {
 	r.Floor("PNGWALK", 1)
 	rulePaySeek(p, r)
 	r.Floor("PAYSEEK", 1)
+	ruleCapPos(p, r)
+	r.Floor("CAP", 5)
+	r.Floor("POS", 1)
 	r.Floor("HDR", 4)
 	r.Floor("SIB", 3)
 	r.Floor("SWITCH", 3)
@@ -569,4 +572,114 @@ func rulePaySeek(p *Prog, r *Report) {
 		})
 	}
 	r.Extra("payseek_sites", n)
+}
+
+// ---- CAP / POS: every container hands the decoder the same kind of reader, at the position it expects ----------
+
+// ruleCapPos.
+// CAP: the Exif decoder takes one of two read paths, chosen by whether its reader offers Peek/Discard
+// (exif2.BufferedReader). The unbuffered path refuses values over 1 024 bytes and directories over 85 entries, so a
+// container whose hand-off passes a plain reader decodes long values differently from the others. Every reader
+// handed to DecodeTiff / DecodeJPEGIfd / DecodeIfd — directly or through an ExifReader callback — must be of a
+// type that implements exif2.BufferedReader.
+// POS: DecodeIfd starts with po = FirstIfdOffset, i.e. it expects the stream at the first directory: the ISOBMFF
+// hand-off must have consumed exactly FirstIfdOffset bytes of the payload (the offset it read from the header),
+// not a constant.
+func ruleCapPos(p *Prog, r *Report) {
+	ex := p.LibPkg("exif2")
+	if ex == nil {
+		r.Undecided("CAP", "exif2.BufferedReader", "-", "package exif2 not loaded")
+		return
+	}
+	obj, _ := ex.Types.Scope().Lookup("BufferedReader").(*types.TypeName)
+	if obj == nil {
+		r.Undecided("CAP", "exif2.BufferedReader", "-", "interface not found")
+		return
+	}
+	iface, _ := obj.Type().Underlying().(*types.Interface)
+	if iface == nil {
+		r.Undecided("CAP", "exif2.BufferedReader", "-", "not an interface")
+		return
+	}
+	isHdr := func(t types.Type) bool { return strings.HasSuffix(t.String(), "meta.ExifHeader") }
+	n := 0
+	for _, f := range p.AllLibFns() {
+		eachCall(f, func(site ssa.CallInstruction) {
+			c := site.Common()
+			var rd ssa.Value
+			what := ""
+			if sc := c.StaticCallee(); sc != nil {
+				if sc.Signature.Recv() == nil || !strings.HasPrefix(sc.Name(), "Decode") || len(c.Args) != 3 || !isHdr(c.Args[2].Type()) {
+					return
+				}
+				if n := namedOfPtr(sc.Signature.Recv().Type()); n == nil || n.Obj().Name() != "ifdReader" {
+					return
+				}
+				rd, what = c.Args[1], "exif2."+sc.Name()
+			} else if !c.IsInvoke() {
+				if _, isB := c.Value.(*ssa.Builtin); isB {
+					return
+				}
+				sig, ok := c.Value.Type().Underlying().(*types.Signature)
+				if !ok || sig.Params().Len() != 2 || !isHdr(sig.Params().At(1).Type()) || sig.Params().At(0).Type().String() != "io.Reader" {
+					return
+				}
+				rd, what = c.Args[0], "the Exif callback "+shortVal(c.Value)
+			} else {
+				return
+			}
+			n++
+			t := rd.Type()
+			if mi, ok := rd.(*ssa.MakeInterface); ok {
+				t = mi.X.Type()
+			}
+			key := fmt.Sprintf("%s | reader handed to %s", fnName(f), what)
+			at := p.posStr(instrPos(site))
+			if types.Implements(t, iface) {
+				r.OK("CAP", key, at, fmt.Sprintf("%s implements exif2.BufferedReader", t))
+			} else {
+				r.Bad("CAP", key, at, fmt.Sprintf("a %s is handed over, which has no Peek/Discard: the decoder takes its unbuffered path, which refuses values over 1 024 bytes and large directories that the other containers decode", t))
+			}
+		})
+	}
+	r.Extra("cap_handoffs", n)
+
+	// POS
+	sp := p.SSAPkg("isobmff")
+	if sp == nil {
+		return
+	}
+	for _, f := range pkgFns(sp, p) {
+		var hdr *ssa.Call
+		eachCall(f, func(site ssa.CallInstruction) {
+			if c, ok := site.(*ssa.Call); ok && c.Call.StaticCallee() != nil && fnName(c.Call.StaticCallee()) == "meta.NewExifHeader" {
+				hdr = c
+			}
+		})
+		if hdr == nil {
+			continue
+		}
+		first := stripConv(hdr.Call.Args[1])
+		eachCall(f, func(site ssa.CallInstruction) {
+			sc := site.Common().StaticCallee()
+			if sc == nil || sc.Name() != "Discard" || len(site.Common().Args) != 2 || !instrDominates(hdr, site.(ssa.Instruction)) {
+				return
+			}
+			key := fmt.Sprintf("%s | bytes consumed before the hand-off = FirstIfdOffset", fnName(f))
+			at := p.posStr(instrPos(site))
+			amt := stripConv(site.Common().Args[1])
+			same := amt == first
+			if !same {
+				// the offset read from the header field that NewExifHeader stored
+				if pth, ok := fieldPathOf(amt); ok && strings.HasSuffix(pth, "FirstIfdOffset") {
+					same = true
+				}
+			}
+			if same {
+				r.OK("POS", key, at, "the hand-off skips exactly the first-directory offset read from the payload's header")
+			} else {
+				r.Bad("POS", key, at, fmt.Sprintf("the hand-off skips %s while the decoder it feeds (DecodeIfd: po = FirstIfdOffset) assumes FirstIfdOffset bytes were consumed: a payload whose first directory is not at offset 8 decodes from a bare TIFF but not from this container", shortVal(site.Common().Args[1])))
+			}
+		})
+	}
 }
